@@ -50,6 +50,12 @@ func init() {
 				r.Err = err.Error()
 			}
 			r.HasTree = ast != nil
+			if err == nil && ast != nil && ast.Call != nil {
+				// mro check and mrp go on to resolve the static call graph;
+				// only a crash there is a verdict (its errors concern the
+				// whole graph and are not required to carry a position)
+				ast.MakeCallGraph("", ast.Call)
+			}
 			var p syntax.Parser
 			uast, uerr := p.UncheckedParse(text, "in.mro")
 			if uerr == nil && uast == nil {
@@ -239,6 +245,23 @@ func init() {
 		for i := 0; i < c.Pick(60, 600); i++ {
 			p := pgen.Generate(c.Seed*31+int64(i), cfg)
 			corpus = append(corpus, p.SingleFile())
+		}
+		// generated programs as they are (the flow checks' generator profiles):
+		// exercises type checking and call graph resolution of accepted programs
+		for i := 0; i < c.Pick(400, 12000); i++ {
+			gc := pgen.DefaultConfig()
+			switch i % 4 {
+			case 1:
+				gc.PDisabled, gc.PMapCall, gc.PTwin, gc.PPreflight = 45, 45, 45, 20
+			case 2:
+				gc.PMapCall, gc.PSplitStage, gc.PDisabled = 55, 50, 40
+			case 3:
+				gc.MaxTypeDepth, gc.MaxStructs, gc.PNarrow, gc.PProject, gc.PMapCall = 3, 4, 60, 70, 45
+				gc.AllowDynamicDisabledInMap = true
+			}
+			gc.AllowNestedDynamic = i%8 >= 4
+			gc.AllowNestedMap = i%8 >= 2
+			add('s', pgen.Generate(c.Seed*7919+int64(i), gc).SingleFile(), "generated")
 		}
 		repoCorpus := loadRepoCorpus(c.RepoDir)
 		corpus = append(corpus, repoCorpus...)
